@@ -6,7 +6,7 @@ _PROP_ENGINE = {
     'C01': 'cellsim', 'C02': 'cellsim', 'C03': 'cellsim', 'C04': 'cellsim',
     'C05': 'cellsim', 'C06': 'cellsim', 'C07': 'cellsim', 'C08': 'cellsim',
     'C09': 'mastersim', 'C10': 'mastersim', 'C11': 'mastersim',
-    'C12': 'nodesim', 'C13': 'nodesim',
+    'C12': 'cachesim', 'C13': 'nodesim',
     'C14': 'netsim', 'C16': 'netsim',
     'C17': 'presencesim',
     'C18': 'tracesim',
